@@ -140,7 +140,10 @@ func InitEventSender(cfg *EventConfig) (S3EventSender, error) {
 }
 
 func createEventSchema(ctx *fiber.Ctx, meta EventMeta, configId ConfigurationId) EventSchema {
-	path := strings.Split(ctx.Path(), "/")
+	// The event is marshalled and sent by another goroutine after the
+	// handler has returned. Everything taken from the request context aliases
+	// buffers that Fiber reuses for the next request, so it is copied here.
+	path := strings.Split(strings.Clone(ctx.Path()), "/")
 	bucket, object := path[1], strings.Join(path[2:], "/")
 	acc := ctx.Locals("account").(auth.Account)
 
@@ -153,14 +156,14 @@ func createEventSchema(ctx *fiber.Ctx, meta EventMeta, configId ConfigurationId)
 				EventTime:    time.Now().Format(time.RFC3339),
 				EventName:    meta.EventName,
 				UserIdentity: EventUserIdentity{
-					PrincipalId: acc.Access,
+					PrincipalId: strings.Clone(acc.Access),
 				},
 				RequestParameters: EventRequestParams{
-					SourceIPAddress: ctx.IP(),
+					SourceIPAddress: strings.Clone(ctx.IP()),
 				},
 				ResponseElements: EventResponseElements{
-					RequestId: ctx.Get("X-Amz-Request-Id"),
-					HostId:    ctx.Get("X-Amz-Id-2"),
+					RequestId: strings.Clone(ctx.Get("X-Amz-Request-Id")),
+					HostId:    strings.Clone(ctx.Get("X-Amz-Id-2")),
 				},
 				S3: EventS3Data{
 					S3SchemaVersion: "1.0",
